@@ -8,7 +8,7 @@ from harness import common as C
 META = {
     "id": "C13",
     "technique": "Coq proof (registry: reflection over translator-generated tables; INI: induction over text of a model of write_project's renderer and of configparser's reader) + extracted-model correspondence with pio.py and with CPython configparser + configparser read-back oracle",
-    "level_text": "Theorems C13_* (coq/Props/C13.v) are proved for all strings about a Gallina model of validate_platform_board/write_project whose tables are regenerated from pio.py on every run; the model is run against the real functions on (registry+near-miss)^2 and generated project configurations.",
+    "level_text": "Theorems C13_* (coq/Props/C13.v) are proved for all strings about a Gallina model of validate_platform_board/write_project (tables and the PIO_INI template regenerated from pio.py on every run) and of configparser.ConfigParser(interpolation=None); the round trip is proved inside an explicit guard (no line break, no blank padding, library names not starting with # or ;) and refuted outside it by the three listed findings; the model is run against the real functions on (registry+near-miss)^2, generated project configurations, and - model-vs-implementation only - hostile configurations and INI texts outside the guard.",
     "level_note": "Trusted: Coq kernel, translator gen_tables.py, extraction (ExtrOcamlBasic), OCaml driver, CPython configparser(interpolation=None) as 'a standard INI parser'. The theorems are about the model; the correspondence check bounds its distance from pio.py.",
     "design_ref": "DESIGN.md section 4 C13, Appendix A.6",
 }
@@ -113,11 +113,11 @@ def run(ctx: C.Ctx):
     wcases = []
     pairs = [(p, b) for p, bs in plats.items() for b in bs]
     n_w = 600 if thorough else 150
-    libpool = ["Servo", "LiquidCrystal", "LiquidCrystal_I2C", "", "a b", "x=y", "arduino-libraries/Servo@^1.2.1", "é", "[z]", "Servo"]
+    libpool = ["Servo", "LiquidCrystal", "LiquidCrystal_I2C", "", "a b", "x=y", "arduino-libraries/Servo@^1.2.1", "é", "[z]", "Servo", "servo", "SERVO", "Servo2", "a  b"]
     srcpool = ["", "void setup(){}\nvoid loop(){}\n", "// é ü √ 漢字\r\nint x;\n", "\n\n  \n", "[env:x]\nboard = y\n"]
     for i in range(n_w):
         pl, b = pairs[i % len(pairs)] if i < 40 else rng.choice(pairs)
-        port = rng.choice(["COM3", "/dev/ttyUSB0", "/dev/cu.usbmodem1101", "", "a b", "x = y", "#1", ";", "[p]", "%(x)s", "p:1"]) if rng.random() < 0.5 else gen_text(rng, PRINTABLE, 12)
+        port = rng.choice(["COM3", "/dev/ttyUSB0", "/dev/cu.usbmodem1101", "", "a b", "x = y", "#1", ";", "[p]", "%(x)s", "p:1", "/dev/", "COM3/", "=", "a  b", "é"]) if rng.random() < 0.5 else gen_text(rng, PRINTABLE, 12)
         libs = None if rng.random() < 0.15 else [rng.choice(libpool) if rng.random() < 0.7 else gen_text(rng, PRINTABLE, 8) for _ in range(rng.randint(0, 5))]
         if not in_guard_port(port):
             port = port.strip()
